@@ -25,7 +25,7 @@ ASSUMPTIONS = [
     "an exception inside a third-party estimator on an extreme history is 'no batch' (counted rejected)",
     "fitted estimators are third-party; only what black_it passes to and takes from them is judged",
 ]
-REQUIRED_COUNTERS = {f"nomod_{k}": 10 for k in G.SAMPLER_KINDS}
+REQUIRED_COUNTERS = {f"nomod_{k}": 6 for k in G.SAMPLER_KINDS}
 REQUIRED_COUNTERS.update({"second_history_same_length": 40, "stub_calls": 100, "real_surrogate_calls": 30, "bestbatch_proposals": 200, "extreme_histories": 50, "boundary_ties": 20})
 SHARDS = {"quick": 16, "thorough": 16}
 SHARD_WATCHDOG = {"quick": 900, "thorough": 5400}
